@@ -114,6 +114,14 @@ CLAIMED["C08"] = (
     "one structural clause of C08 (free structures stay well formed under pre-emption between head load and CAS); linearizability, "
     "exactly-once hand-over and counter totals need schedule enumeration and are not decided",
     "DESIGN.md section 4 C08, section 3 R-ABA")
+CLAIMED["C17"] = (
+    "MIR must-pass-through / who-may-call analysis of the eviction path (R-ORDER/R-FLOW), lock-order graph with read/write modes "
+    "(R-LOCKORDER) and routing purity of the shard selector",
+    "static rules over MIR: evict_lru invokes the callback exactly once on the entry it unlinks and only when the map is full; the "
+    "locks of LruMap are acquired in one order; the shard for a key depends on the key and on no thread id / counter / clock",
+    "structural clauses of C17; LRU order values, the capacity bound, page-cache byte equality and staleness after invalidation are "
+    "value/history-level and not decided (two such defects were found by probing and fixed, see DESIGN 10.3)",
+    "DESIGN.md section 4 C17, section 3 R-ORDER / R-FLOW")
 NA = {
     "C11": "sortedness/permutation/multiset equality of loops over data for all inputs and configurations is value-level; no structural clause is a necessary condition short of the result itself",
     "C12": "lexicographic order of all suffixes, exact LCP and search ranges are value-level for every construction algorithm",
